@@ -1,6 +1,8 @@
 package rules
 
 import (
+	"go/ast"
+	"go/constant"
 	"go/token"
 	"go/types"
 
@@ -221,3 +223,18 @@ func singleVararg(v ssa.Value) ssa.Value {
 
 type pointerT = types.Pointer
 type arrayT = types.Array
+
+type astGenDecl = ast.GenDecl
+type astValueSpec = ast.ValueSpec
+type astCompositeLit = ast.CompositeLit
+
+func constInt64(v constant.Value) (int64, bool) {
+	if v == nil {
+		return 0, false
+	}
+	if i, ok := constant.Int64Val(constant.ToInt(v)); ok {
+		return i, true
+	}
+	// values above MaxInt64 (uint64 max): saturate
+	return 1<<63 - 1, true
+}
